@@ -29,14 +29,15 @@ Record state := mkSt {
   ring_lc : option nat;
   ring_empty : bool;
   utxo : list N;                   (* spendable keys, sorted, no duplicates *)
-  last_id : N; last_hash : N
+  last_id : N; last_hash : N;
+  wsteps : N                       (* ghost: wind/unwind calls of the last validate *)
 }.
 
 Definition cfg := (N * bool)%type.  (* genesis period, initial_loading_completed *)
 Definition gp_of (c : cfg) : N := fst c.
 
 Definition init (c : cfg) : state :=
-  mkSt [] (repeat (mkRI None []) (N.to_nat (2 * gp_of c))) None true [] 0 0.
+  mkSt [] (repeat (mkRI None []) (N.to_nat (2 * gp_of c))) None true [] 0 0 0.
 
 (* ---------------- utxo set (sorted list) ---------------- *)
 Fixpoint uins (k : N) (u : list N) : list N :=
@@ -61,16 +62,16 @@ Definition undo_block (u : list N) (b : blk) : list N := fold_left undo_tx (b_tx
 (* ---------------- block store ---------------- *)
 Definition get_block (st : state) (h : N) : option sblk := aget h (blocks st).
 Definition set_blocks (st : state) (bs : list (N * sblk)) : state :=
-  mkSt bs (ring st) (ring_lc st) (ring_empty st) (utxo st) (last_id st) (last_hash st).
+  mkSt bs (ring st) (ring_lc st) (ring_empty st) (utxo st) (last_id st) (last_hash st) (wsteps st).
 Definition set_lc_flag (st : state) (h : N) (f : bool) : state :=
   match get_block st h with
   | Some sb => set_blocks st (aset h (mkSB (s_b sb) f) (blocks st))
   | None => st
   end.
 Definition set_utxo (st : state) (u : list N) : state :=
-  mkSt (blocks st) (ring st) (ring_lc st) (ring_empty st) u (last_id st) (last_hash st).
+  mkSt (blocks st) (ring st) (ring_lc st) (ring_empty st) u (last_id st) (last_hash st) (wsteps st).
 Definition set_ring (st : state) (r : list ritem) (lc : option nat) : state :=
-  mkSt (blocks st) r lc (ring_empty st) (utxo st) (last_id st) (last_hash st).
+  mkSt (blocks st) r lc (ring_empty st) (utxo st) (last_id st) (last_hash st) (wsteps st).
 
 (* ---------------- block ring ---------------- *)
 Definition SITE_RING_INDEX : N := 10.   (* block_hashes[lc_pos] out of bounds *)
@@ -284,7 +285,7 @@ Definition gt_count_valid (st : state) (prev : N) (has_gt : bool) : bool :=
 (* Blockchain::on_chain_reorganization (no purge in this regime) *)
 Definition bc_reorg (st : state) (b : blk) (lc : bool) : state :=
   if b_id b <=? last_id st then st
-  else if lc then mkSt (blocks st) (ring st) (ring_lc st) (ring_empty st) (utxo st) (b_id b) (b_hash b)
+  else if lc then mkSt (blocks st) (ring st) (ring_lc st) (ring_empty st) (utxo st) (b_id b) (b_hash b) (wsteps st)
   else st.
 
 Definition wind_block (c : cfg) (st : state) (b : blk) : res state :=
@@ -325,7 +326,14 @@ Fixpoint wind_list (c : cfg) (st : state) (todo wound : list N)
       end
   end.
 
-(* Blockchain::validate (dispatcher as repaired).  new / old are tip first. *)
+(* Blockchain::validate (dispatcher as repaired).  new / old are tip first.
+   [wsteps] counts the calls of wind_chain / unwind_chain (the cfg(saito_verif)
+   hook in blockchain.rs counts the same calls on the implementation). *)
+Definition set_steps (st : state) (n : N) : state :=
+  mkSt (blocks st) (ring st) (ring_lc st) (ring_empty st) (utxo st) (last_id st) (last_hash st) n.
+Definition attempts (todo : list N) (r : option (list N)) : N :=
+  match r with None => Nlen todo | Some wound => Nlen wound + 1 end.
+
 Definition validate (c : cfg) (st : state) (new old : list N) : res (state * bool) :=
   match new with
   | [] => Panic SITE_UNWRAP_BLOCK
@@ -333,19 +341,21 @@ Definition validate (c : cfg) (st : state) (new old : list N) : res (state * boo
       match get_block st h0 with
       | None => Panic SITE_UNWRAP_BLOCK
       | Some sb0 =>
+          let st := set_steps st 0 in
           if negb (gt_count_valid st (b_prev (s_b sb0)) (b_gt (s_b sb0))) then Ok (st, false)
           else
             do st1 <- unwind_all c st old;
             do r <- wind_list c st1 (rev new) [];
             match r with
-            | (st2, None) => Ok (st2, true)
+            | (st2, None) => Ok (set_steps st2 (Nlen old + Nlen new), true)
             | (st2, Some wound) =>
                 do st3 <- unwind_all c st2 wound;
+                let n1 := Nlen old + (Nlen wound + 1) + Nlen wound in
                 match old with
-                | [] => Ok (st3, false)
+                | [] => Ok (set_steps st3 n1, false)
                 | _ =>
                     do r' <- wind_list c st3 (rev old) [];
-                    Ok (fst r', false)
+                    Ok (set_steps (fst r') (n1 + attempts old (snd r')), false)
                 end
             end
       end
@@ -380,7 +390,7 @@ Definition add_block_failure (c : cfg) (st : state) (b : blk) : state :=
   end.
 
 Definition set_not_empty (st : state) : state :=
-  mkSt (blocks st) (ring st) (ring_lc st) false (utxo st) (last_id st) (last_hash st).
+  mkSt (blocks st) (ring st) (ring_lc st) false (utxo st) (last_id st) (last_hash st) (wsteps st).
 
 Definition add_block (c : cfg) (st : state) (b : blk) : res (state * add_result) :=
   let gp := gp_of c in
@@ -448,7 +458,7 @@ Fixpoint lc_rows (c : cfg) (r : list ritem) (id : N) (n : nat) : list N :=
 Definition obs_rows (c : cfg) (st : state) (code : N) : res (list (list N)) :=
   do tid <- latest_id st;
   do th <- latest_hash st;
-  Ok [[code]; [tid; th];
+  Ok [[code; wsteps st]; [tid; th];
       lc_rows c (ring st) 0 (N.to_nat (max_id st tid + 2));
       flat_map (fun hb => [fst hb; b_id (s_b (snd hb)); if s_lc (snd hb) then 1 else 0]) (blocks st);
       map (fun k => 2 * k + 1) (utxo st)].
